@@ -489,6 +489,29 @@ fn judge_text<'a, T: DiffableStr + ?Sized + std::fmt::Debug + 'a>(d: &'a TextDif
         if got != d.ops() {
             return Err(format!("replaying ops() through apply_to_hook into Replace<Capture> gives {:?}, the ops are {:?}", got, d.ops()));
         }
+        // the same list with every Equal op of two or more items cut in two (as a list assembled from
+        // separately diffed chunks has them): Replace joins the pieces again, also right behind a
+        // Replace op that it passes through
+        let mut split: Vec<DiffOp> = vec![];
+        for op in d.ops() {
+            match *op {
+                DiffOp::Equal { old_index, new_index, len } if len >= 2 => {
+                    let h = len / 2;
+                    split.push(DiffOp::Equal { old_index, new_index, len: h });
+                    split.push(DiffOp::Equal { old_index: old_index + h, new_index: new_index + h, len: len - h });
+                }
+                o => split.push(o),
+            }
+        }
+        let mut rep = similar::algorithms::Replace::new(Capture::new());
+        for op in &split {
+            op.apply_to_hook(&mut rep).unwrap();
+        }
+        similar::algorithms::DiffHook::finish(&mut rep).unwrap();
+        let got = rep.into_inner().into_ops();
+        if got != d.ops() {
+            return Err(format!("replaying the ops with every Equal run cut in two through Replace<Capture> gives {:?}, the ops are {:?}", got, d.ops()));
+        }
     }
     obs.nontrivial = d.ops().len() >= 2;
     obs.class_if(hunks >= 1, "text: hunks iterated");
